@@ -53,6 +53,8 @@ def run(ctx):
         if r["timeout"]:
             continue
         if not r["replays"]:
+            if "did not do any transition before terminating" in r["out"]:
+                sig = "C38:initial-deadlock"       # known finding: a program deadlocked in its initial state is reported as fine
             ctx.violation("reduction %s reports no counter-example for a program with a reachable deadlock" % red, files=files, signature=sig + ":none")
             continue
         chosen = list(range(min(len(r["replays"]), 1 if quick else 4)))
@@ -101,7 +103,8 @@ def run(ctx):
                       "transitions at record %s: %s" % (path, red, json.dumps(x["record"]), x["reason"]),
                       files={"program.json": json.dumps(sub[j]), "program.txt": K.prog_to_txt(sub[j]),
                              "replay.ndjson": "\n".join(json.dumps(r) for r in replays[x["index"]][1]) + "\n"},
-                      signature="C41:%s:%s:replay" % (red, vlib.canon_hash(sub[j])), detail=json.dumps(K.prog_brief(sub[j])))
+                      signature=("C38:mc-random:%s:badtrace" % red) if (M.has_rand(sub[j]) and red in ("sdpor", "odpor")) else
+                                "C41:%s:%s:replay" % (red, vlib.canon_hash(sub[j])), detail=json.dumps(K.prog_brief(sub[j])))
     for idx, ready, o in outc:
         (j, red), path = keys[idx]
         if ready or o["end"] != "deadlock":
